@@ -116,6 +116,20 @@ def run(tier, seed):
             ck.violation("decode_differs:%s" % r["kind"], "AVP %s/%s from %s: %s" % (r["code"], r["vendor"], exp.hex()[:80], probs[:3]), rp)
         if d.as_bytes() != exp:
             ck.violation("reencode_differs:%s" % r["kind"], "decode/encode of %s gives %s" % (exp.hex()[:80], d.as_bytes().hex()[:80]), rp)
+        # the value the decoder hands out is itself a value of the type's domain: a new AVP built from it has the same octets
+        if not probs:
+            try:
+                fv = d.value
+                if r["kind"] == "addr":
+                    fv = fv[1]          # the setter takes the address text, the family is derived
+                fb = Avp.new(r["code"], r["vendor"], value=fv, is_mandatory=s["M"], is_private=s["P"]).as_bytes()
+            except Exception as e:
+                fb = None
+                ck.violation("decoded_value_not_encodable:%s" % r["kind"], "AVP %s/%s decoded from %s has value %r, which Avp.new rejects: %r" % (
+                    r["code"], r["vendor"], exp.hex()[:80], str(d.value)[:60], e), rp)
+            if fb is not None and fb != exp:
+                ck.violation("decoded_value_reencodes_differently:%s" % r["kind"], "AVP %s/%s: value %r decoded from %s encodes as %s" % (
+                    r["code"], r["vendor"], str(d.value)[:60], exp.hex()[:80], fb.hex()[:80]), rp)
         n_ok += 1
     # (4) values outside the domain are rejected with an error (per the reference's InDomain)
     n_out = 0
@@ -143,8 +157,30 @@ def run(tier, seed):
         d = Avp.from_bytes(exp)
         if type(d) is not Avp or d.code != code or d.vendor_id != vendor or d.payload != data or d.as_bytes() != exp:
             ck.violation("unknown_code", "unknown AVP %s/%s not decoded generically / not re-encoded identically" % (code, vendor), {"code": code, "vendor": vendor})
+    # the codes about to be registered have been looked up before (decoded and constructed while still unknown):
+    # the definition registered afterwards must nevertheless be the one in force
+    for code, vendor in ((88888801, 7777701), (88888802, 0), (88888803, 0)):
+        hdr = bytearray(Avp(code, vendor_id=vendor, payload=b"\x00\x00\x00\x4d").as_bytes())
+        if type(Avp.from_bytes(bytes(hdr))) is not Avp:
+            ck.note("test code %s/%s already has a definition (same process ran before)" % (code, vendor))
+        try:
+            Avp.new(code, vendor)
+        except Exception:
+            pass
     avpmod.register(88888801, "Verif-Test-U32", avpmod.AvpUnsigned32, vendor=7777701, mandatory=True)
     avpmod.register(88888802, "Verif-Test-Str", avpmod.AvpUtf8String)
+    # a definition registered twice: the later registration is the dictionary's entry from then on
+    avpmod.register(88888803, "Verif-Test-Re", avpmod.AvpUtf8String)
+    try:
+        first = Avp.new(88888803, value="1234")
+        avpmod.register(88888803, "Verif-Test-Re", avpmod.AvpUnsigned32, mandatory=True)
+        re_d = Avp.from_bytes(first.as_bytes())
+        re_n = Avp.new(88888803, value=0x31323334)
+        good = type(re_d).__name__ == "AvpUnsigned32" and re_d.value == 0x31323334 and re_n.as_bytes()[8:] == b"1234" and re_n.is_mandatory
+    except Exception:
+        good = False
+    if not good:
+        ck.violation("runtime_registered_definition", "a definition registered again for 88888803/0 (Unsigned32 after UTF8String) is not the one the codec uses", {"code": 88888803, "vendor": 0})
     for code, vendor, pv, vs, M in ((88888801, 7777701, 77, {"t": "uint", "limbs": [0, 77]}, True), (88888802, 0, "xy", {"t": "utf8", "cps": [120, 121]}, False)):
         o = tlc.evaluate("WireEval", [{"op": "avp", "avp": {"code": codec.limbs(code, 2), "vendor": codec.limbs(vendor, 2), "M": M, "P": False, "val": vs}}], "c01_reg")[0]
         exp = bytes(o["bytes"])
@@ -173,6 +209,10 @@ def run(tier, seed):
                 if a.as_bytes() != bytes(o["bytes"]):
                     ck.violation("v_flag_not_following_vendor_id", "AVP %s built with flags %#x then vendor_id set to %r: %s, reference %s" % (
                         code, ctor_flags, vendor_steps, a.as_bytes().hex()[:60], bytes(o["bytes"]).hex()[:60]), {"code": code, "steps": vendor_steps, "flags": ctor_flags})
+    # (7) concurrent callers: the node's threads share the codec, so every interleaving of encoders / decoders (source-line
+    #     scheduling points; every schedule with one preemption, two in the thorough tier) must give each caller the octets / value it gets when running alone
+    n_conc = concurrent_callers(ck, cases, outs, tier)
+    ck.cov["concurrent_schedules"] = n_conc
     ck.cov["evaluations"] = len(cases) + n_out + 5 + n_v
     ck.cov["distinct_nontrivial"] = len({json.dumps(c["spec"], sort_keys=True) for c in cases})
     ck.cov["rule"] = "one evaluation = one AVP (dictionary entry x value x M/P request) encoded and decoded against the TLA+ reference; distinct by reference specification; all carry a header and a typed payload"
@@ -182,6 +222,43 @@ def run(tier, seed):
     for c in cases[:: max(1, len(cases) // 4)][:4]:
         ck.sample({"code": c["recipe"]["code"], "vendor": c["recipe"]["vendor"], "kind": c["recipe"]["kind"], "value": str(c["recipe"]["value"])[:60], "spec": json.dumps(c["spec"])[:200]})
     return ck.finish()
+
+
+def concurrent_callers(ck, cases, outs, tier):
+    from .. import concur
+    from diameter.message.packer import Packer, Unpacker
+    studied = concur.studied_functions([avpmod.Avp, Packer, Unpacker, avpmod.get_avp_dictionary_entry])
+    pick = {}
+    for c, o in zip(cases, outs):
+        k = c["recipe"]["kind"]
+        if o["ok"] and k not in pick and k in ("u32", "utf8", "addr", "group", "time", "bytes") and (k != "group" or c["recipe"]["value"]):
+            pick[k] = (c["recipe"], bytes(o["bytes"]))
+    kinds = sorted(pick)
+    pairs = [(kinds[i], kinds[(i + 1) % len(kinds)]) for i in range(len(kinds))]
+    P = 2 if tier == "thorough" else 1
+    total = 0
+
+    def describe(v):
+        return (type(v).__name__, v.code, v.vendor_id, v.flags, repr(v.value) if not isinstance(v.value, list) else len(v.value))
+
+    for ka, kb in pairs:
+        (ra, ba), (rb, bb) = pick[ka], pick[kb]
+        for mode in ("encode", "decode"):
+            def make_jobs():
+                if mode == "encode":
+                    a, b = codec.build(ra), codec.build(rb)
+                    return [[a.as_bytes, a.as_bytes], [b.as_bytes]]
+                return [[lambda: describe(Avp.from_bytes(ba))], [lambda: describe(Avp.from_bytes(bb)), lambda: describe(Avp.from_bytes(ba))]]
+            for sched_, res, exits, expected in concur.explore_calls(make_jobs, studied, P, max_runs=6000):
+                total += 1
+                if mode == "encode" and expected != [[("ok", ba), ("ok", ba)], [("ok", bb)]]:
+                    raise RuntimeError("sequential encode differs from the reference (should have been reported above)")
+                if res != expected or exits:
+                    ck.violation("concurrent_%s_differs" % mode, "two threads %s AVPs of kinds %s / %s at once: results %r, alone %r (thread exits %r), schedule %r" % (
+                        "encoding" if mode == "encode" else "decoding", ka, kb, str(res)[:160], str(expected)[:160], exits, sched_[:40]),
+                        {"mode": mode, "kinds": [ka, kb], "schedule": sched_})
+                    break
+    return total
 
 
 def replay(path, seed):
